@@ -100,7 +100,13 @@ def build_harness(work):
         shutil.copy(os.path.join(KB_REPO, "go.sum"), os.path.join(hdir, "go.sum"))
     except Exception:
         pass
-    rc, out = run(["go", "build", "-tags", "verif", "-o", binp, "./cmd/kbverif"], cwd=hdir, env=GOENV, timeout=900)
+    cover = []
+    if os.environ.get("KB_COVER"):
+        # (diagnostics only: which code of the repository the drivers of a check execute; `go tool covdata func -i=$KB_COVER`)
+        cover = ["-cover", "-coverpkg=github.com/kubewharf/kubebrain/pkg/..."]
+        os.makedirs(os.environ["KB_COVER"], exist_ok=True)
+        GOENV["GOCOVERDIR"] = os.environ["KB_COVER"]
+    rc, out = run(["go", "build", "-tags", "verif"] + cover + ["-o", binp, "./cmd/kbverif"], cwd=hdir, env=GOENV, timeout=900)
     if rc != 0:
         raise Undecided("harness build failed (the repository does not compile with -tags verif?):\n" + out[-3000:])
     log("harness built in %.1fs" % (time.time() - t0))
